@@ -374,6 +374,84 @@ def claim_list_protocol(cx, res, kf):
             res.vacuity.append(("%s reaches %s" % (fname, k), seen[k] > 0))
 
 
+def claim_vector_protocol(cx, res, kf):
+    """C08/C12/C19: parse_vector / parse_vector_meta (one loop step) and end_seq."""
+    from . import confirm as CF
+    onm = CF.confirm(("lists", "truncation"), res)
+    for fname in ("parse_vector", "parse_vector_meta"):
+        eng, fn, info, terms = explore_builder(cx, res, fname)
+        term = info["term"]
+        seen = {"close": 0, "mismatch": 0, "elem": 0, "eof": 0}
+        for t in terms:
+            st = t.state
+            pc = list(st.pc)
+            if t.kind == "PANIC":
+                continue
+            if not st.notes.get("in"):
+                res.violations.append({"what": "%s: path never reaches the element loop" % fname, "replayed": None})
+                continue
+            evs = step_events(st)
+            kinds = [e[0] for e in evs]
+            out = outcome(eng, t)
+            if not evs or evs[0][0] != "ws":
+                res.must_be_unsat(pc, "%s: a step does not start by skipping trivia (%r)" % (fname, kinds), onm)
+                continue
+            w = evs[0]
+            werr, wsome, wb = w[2], w[3], w[4]
+            is_close = z3.And(z3.Not(werr), wsome, z3.Or(wb == ord(")"), wb == ord("]")))
+            if out[0] == "ok" and len(evs) == 1:
+                seen["close"] += 1
+                res.must_be_unsat(pc + [z3.Not(z3.And(is_close, wb == term))], "%s: vector closed by something other than its own closer" % fname, onm)
+            elif out == ("err", "MismatchedParenthesis"):
+                seen["mismatch"] += 1
+                res.must_be_unsat(pc + [z3.Not(z3.And(is_close, wb != term))], "%s: MismatchedParenthesis without a wrong closer" % fname, onm)
+            elif out[0] == "err" and out[1] in ("EofWhileParsingVector", "EofWhileParsingList") and kinds[1:] == ["error"]:
+                seen["eof"] += 1
+                res.must_be_unsat(pc + [z3.Not(z3.And(z3.Not(werr), z3.Not(wsome)))], "%s: EOF error without end of input" % fname, onm)
+            elif "expect" in kinds:
+                seen["elem"] += 1
+                res.must_be_unsat(pc + [z3.Or(is_close, werr, z3.Not(wsome))], "%s: element read at a closer / EOF / after a failed read" % fname, onm)
+                if out[0] not in ("loop", "err"):
+                    res.must_be_unsat(pc, "%s: returns in the middle of the elements" % fname, onm)
+            elif out[0] == "err":
+                # a failed read / callee error is passed on
+                continue
+            else:
+                res.must_be_unsat(pc, "%s: unexpected step %r -> %r" % (fname, kinds, out), onm)
+        for k, n in seen.items():
+            res.vacuity.append(("%s reaches %s" % (fname, k), n > 0))
+    # end_seq: trivia, then exactly the closer (consumed); anything else is trailing characters, end of input an EOF error
+    eng, fn, info, terms = explore_builder(cx, res, "end_seq")
+    term = info["term"]
+    seen = {"ok": 0, "trailing": 0, "eof": 0}
+    for t in terms:
+        st = t.state
+        pc = list(st.pc)
+        if t.kind != "RETURN":
+            continue
+        evs = list(st.events)
+        kinds = [e[0] for e in evs]
+        out = outcome(eng, t)
+        ws = [e for e in evs if e[0] == "ws"]
+        if len(ws) != 1 or kinds[0] != "ws":
+            res.must_be_unsat(pc, "end_seq does not skip trivia exactly once first (%r)" % kinds, onm)
+            continue
+        werr, wsome, wb = ws[0][2], ws[0][3], ws[0][4]
+        if out[0] == "ok":
+            seen["ok"] += 1
+            res.must_be_unsat(pc + [z3.Not(z3.And(z3.Not(werr), wsome, wb == term))], "end_seq accepts another byte than the closer", onm)
+            if kinds.count("eat") != 1:
+                res.must_be_unsat(pc, "end_seq does not consume exactly the closer", onm)
+        elif out == ("err", "TrailingCharacters"):
+            seen["trailing"] += 1
+            res.must_be_unsat(pc + [z3.Not(z3.And(z3.Not(werr), wsome, wb != term))], "end_seq rejects the closer as trailing characters / reports it at EOF", onm)
+        elif out[0] == "err" and str(out[1]).startswith("Eof"):
+            seen["eof"] += 1
+            res.must_be_unsat(pc + [z3.Not(z3.And(z3.Not(werr), z3.Not(wsome)))], "end_seq: EOF error without end of input", onm)
+    for k, n in seen.items():
+        res.vacuity.append(("end_seq reaches %s" % k, n > 0))
+
+
 def claim_lockstep(cx, res, kf):
     """C10: the datum builders take exactly the decisions of the value builders."""
     for fa, fb in (("parse_list", "parse_list_meta"), ("parse_vector", "parse_vector_meta")):
@@ -430,6 +508,11 @@ CLAIMS = [
           "a dotted tail needs a head element and a delimiter after the dot, trivia is skipped before the closer after "
           "the tail and that closer must be the list's own, `.name` reads a symbol",
           "any number of elements (loop cut), both closers, arbitrary reader behaviour", configs=("fast",), also=("C12", "C13", "C19")),
+    Claim("c08_vector_protocol", "C08", "quick", claim_vector_protocol,
+          "parse_vector / parse_vector_meta: each step skips trivia first, a vector ends only at its own closer (mismatch "
+          "otherwise), end of input is an EOF error, everything else is read as an element; end_seq skips trivia once, "
+          "consumes exactly the construct's own closer, reports any other byte as trailing characters and end of input as EOF",
+          "any number of elements (loop cut), both closers, arbitrary reader behaviour", configs=("fast",), also=("C12", "C19", "C13")),
     Claim("c10_builder_lockstep", "C10", "quick", claim_lockstep,
           "for every behaviour of the reader and of the nested parser, parse_list_meta takes exactly the steps of "
           "parse_list and parse_vector_meta those of parse_vector (same trivia skips, same lookahead, same nested "
